@@ -146,7 +146,9 @@ def monitorValidate (prop mode : String) (st : Int) (levels : List (Revocation.E
   | none =>
     if modelErr then return some "invalid_chain_accepted"
     let rs ← fldList impl "results" certResultOf
-    let traces ← fldList impl "traces" (fun t => do arrMap (← t.getArr?) contactOf)
+    let traces ← match fldOpt impl "traces" with
+      | none => pure []          -- not observed (cancellation cases): trace clauses are not evaluated
+      | some t => arrMap (← t.getArr?) (fun t => do arrMap (← t.getArr?) contactOf)
     -- structural completeness is needed by every per-certificate monitor
     if rs.length != levels.length + 1 then return some "not_one_result_per_certificate"
     let zipped := (levels.zip rs).zip (traces ++ List.replicate (levels.length - traces.length) [])
